@@ -275,6 +275,9 @@ func cmpAtom(op token.Token, sa, sb string) (string, bool) {
 	return fmt.Sprintf("[%s %s %s]", sa, op, sb), neg
 }
 
+// concatParts remembers the operands of a rendered string concatenation.
+var concatParts = map[string][]string{}
+
 func (fr *aFrame) binop(x *ssa.BinOp) aVal {
 	a, b := fr.get(x.X), fr.get(x.Y)
 	e := fr.env
@@ -300,6 +303,22 @@ func (fr *aFrame) binop(x *ssa.BinOp) aVal {
 			if kb, ok := b.(aConst); ok && ka.v != nil && kb.v != nil && ka.v.Kind() == constant.String {
 				return aConst{constant.BinaryOp(ka.v, token.ADD, kb.v), ka.t}
 			}
+		}
+		// string concatenation is associative: a + (b + c) is written (a + b) + c
+		if bt, isB := x.Type().Underlying().(*types.Basic); isB && bt.Info()&types.IsString != 0 {
+			parts := func(v aVal) []string {
+				if p, ok := concatParts[aShow(v)]; ok {
+					return p
+				}
+				return []string{aShow(v)}
+			}
+			all := append(append([]string{}, parts(a)...), parts(b)...)
+			out := all[0]
+			for _, p := range all[1:] {
+				out = "(" + out + " + " + p + ")"
+			}
+			concatParts[out] = all
+			return aSym(out)
 		}
 	case token.SUB:
 		// capacity - x (the pre-check form of a saturating sum)
@@ -764,6 +783,17 @@ func (fr *aFrame) call(x *ssa.Call, sums map[string]aSummary) aVal {
 						bits = 32
 					}
 					return aTuple{aWsum{a: args[0], b: args[1], bits: bits}, aCarry{args[0], args[1]}}
+				}
+			}
+		case "strings.Repeat":
+			// a constant repeated a constant number of times is that constant
+			if len(args) == 2 {
+				sk, ok1 := args[0].(aConst)
+				nk, ok2 := args[1].(aConst)
+				if ok1 && ok2 && sk.v != nil && nk.v != nil && sk.v.Kind() == constant.String && nk.v.Kind() == constant.Int {
+					if n, exact := constant.Int64Val(nk.v); exact && n >= 0 && n <= 4096 {
+						return aConst{v: constant.MakeString(strings.Repeat(constant.StringVal(sk.v), int(n))), t: x.Type()}
+					}
 				}
 			}
 		case "strings.CutPrefix", "bytes.CutPrefix":
